@@ -532,6 +532,8 @@ class Sym:
         return self if ENG.branch(self.e >= 0) else -self
 
     def __pow__(self, k):
+        if isinstance(k, np.ndarray):
+            return NotImplemented
         if isinstance(k, np.generic):
             k = k.item()
         if isinstance(k, float) and k == int(k):
